@@ -2,6 +2,12 @@
 and the signature function that labels a failing case for known_findings.jsonl."""
 
 PROPS = {
+    'C11': {
+        'families': [('c11', 150, 2000)],
+        'rule': 'generated record multisets (hash codes incl. identity and a 4-byte code, digest widths 0..70, duplicate digests with other offsets / other hash codes, offsets up to 2^63-1) loaded in a random permutation into both on-disk codecs; WriteTo byte count vs bytes written, bytes compared with the identity-order load when no digest is shared, ReadFrom of the bytes, then GetAll/GetFirst for every record CID and absent CIDs and ForEach on the re-read index, all compared with model and with the record multiset; distinct = distinct script text',
+        'trusted': ['Go sort.Sort instability for equal digests is canonicalised away (offset lists compared sorted)'],
+        'assumptions': [],
+    },
     'C10': {
         'families': [('c10', 40, 400)],
         'rule': 'generated valid CARv1 x: WrapV1 (both codecs, StoreIdentityCIDs on/off) output compared byte-for-byte; ExtractV1File over {the wrapped file, a hand-laid index-less CARv2 with data padding, a writer-produced CARv2 with data and index padding} x destination {absent, larger pre-existing file, the same path (in place)} on real files; ReplaceRootsInFile with replacement root lists of equal and different encoded size on CARv1 and CARv2 files, file bytes before/after; distinct = distinct script text',
@@ -112,6 +118,8 @@ def signature(pid, script, I, S):
         return 'C16/' + fam + '-after-failed-write-differs'
     if pid == 'C10':
         return 'C10/' + toks.get('op', '?') + '-' + toks.get('dst', '') + '-output-differs'
+    if pid == 'C11':
+        return 'C11/' + toks.get('codec', '?') + '-serialisation-differs'
     if pid == 'C20':
         return 'C20/' + fam + '-differs-from-lazy-direct-writer'
     if pid == 'C06':
